@@ -35,6 +35,7 @@ ELEMS = {
     "I2": dict(type="identity", spec_version="2.1", id=I, created=T1, modified=T2, name="creator-v2"),
     "R1": dict(type="relationship", spec_version="2.1", id=R1, created=T1, modified=T1, relationship_type="uses", source_ref=X, target_ref=Y),
     "R1b": dict(type="relationship", spec_version="2.1", id=R1, created=T1, modified=T2, relationship_type="uses", source_ref=X, target_ref=Y, description="v2"),
+    "R1rev": dict(type="relationship", spec_version="2.1", id=R1, created=T1, modified=T3, relationship_type="uses", source_ref=Y, target_ref=X, description="v3-end-points-swapped"),
     "R2": dict(type="relationship", spec_version="2.1", id=R2, created=T1, modified=T1, relationship_type="attributed-to", source_ref=I, target_ref=X),
     "R3": dict(type="relationship", spec_version="2.1", id=R3, created=T1, modified=T1, relationship_type="related-to", source_ref=Y, target_ref=Y),
 }
@@ -431,7 +432,7 @@ def run(run):
             cases.append({"members": members, "cfilter": cf, "environment": True})
         cases.append({"members": members, "nested": True})
     for k in range(1, len(POP8) + 1):
-        for sub in itertools.combinations(POP8 + ["R3"], k):
+        for sub in itertools.combinations(POP8 + ["R3", "R1rev"], k):
             if k <= 3 or (th and k <= 5) or k == len(POP8):
                 cases.append({"members": [list(sub)], "single_store": True, "environment": False})
     # (c2) sequences: the child composite used through a filtered parent first, directly afterwards
@@ -443,6 +444,9 @@ def run(run):
         for chf in ("name!=x3", "type!=identity"):
             for order in ([0, 1], [1, 0]):
                 cases.append({"members": members, "child_filter": chf, "order": order, "environment": False})
+    # (c2c) relationship versions whose end points differ (direction reversed by a later version), over 2 members and in one store
+    for members in assignments(["X1", "Y", "R1", "R1rev", "R1b"], 2):
+        cases.append({"members": members, "environment": True, "env_navigation": True, "single_store": len(members[1]) == 1})
     # (c3) versions that differ below the millisecond, over 2 and 3 members
     for members in assignments(["X1", "X3", "X3us", "R1", "R1us", "Y"], 2):
         cases.append({"members": members, "environment": len(members[0]) == 3, "env_navigation": True})
